@@ -10,6 +10,7 @@ from engine.model import src, stmt_key, dotted, AnalysisError
 from engine.util import own_nodes, calls_with_nodes, where, with_exprs
 
 RULES = {
+    "R-02.7": "a wire reader uses everything it reads: every local bound from a parser read (parser.get_*, struct.unpack) in a from_wire_parser / from_value is read afterwards (handed to the constructor, or used as a length/selector); a field read and then dropped decodes to the constructor's default",
     "R-02.1": "for every record class (and helper codec, SVCB parameter, EDNS option) the abstract layout of the writer equals the layout of the reader: integer field widths, names, counted/fixed/rest octet fields, repetitions, optional tails, helper codecs",
     "R-02.2": "every call that reaches a type's from_wire_parser with a length taken from the wire is inside `with parser.restrict_to(length)`; restrict_to raises when the region is not consumed exactly and restores the end",
     "R-02.4": "a flag packed into the high bit(s) of an integer field is split at the same bit on both sides: the constant the writer ORs in / shifts by and the constants the reader tests, clears or subtracts name one bit position",
@@ -312,6 +313,25 @@ def run(model, rep, tier):
             rep.check(okk, "R-02.3", g.qualname, where(g, st), "stored under (ANY, rdtype) only for a class imported from the ANY directory",
                       f"`{src(st)[:70]}` stores under `{key}` a class that was not imported from the class-independent (ANY) directory: the first lookup of a type with some class poisons the lookup "
                       "of every other class (e.g. GenericRdata cached for an IN-only type)", stmt="cache-key " + key + " <- " + src(st.value))
+    # ---------------------------------------------------------------- R-02.7
+    n_read = 0
+    for f7 in sorted(model.all_functions(), key=lambda g: g.qualname):
+        if f7.name not in ("from_wire_parser", "from_value") or not (f7.module.name.startswith("dns.rdtypes") or f7.module.name in ("dns.edns", "dns.rdata")):
+            continue
+        bound = {}
+        for a in ast.walk(f7.node):
+            if isinstance(a, ast.Assign) and isinstance(a.value, ast.Call) and src(a.value.func).startswith(("parser.", "struct.unpack")):
+                for tg in a.targets:
+                    for x in ast.walk(tg):
+                        if isinstance(x, ast.Name) and not x.id.startswith("_"):
+                            bound[x.id] = a
+        loads = {x.id for x in ast.walk(f7.node) if isinstance(x, ast.Name) and isinstance(x.ctx, ast.Load)}
+        for b_, a in sorted(bound.items()):
+            n_read += 1
+            rep.check(b_ in loads, "R-02.7", f7.qualname, where(f7, a), f"`{b_}` read from the wire is used",
+                      f"`{b_}` is read from the wire (`{src(a)[:50]}`) and never used: the decoded object gets the constructor's default for that field, so a value whose field is non-default "
+                      "does not survive encode-then-decode", stmt=f"wire-value-used {b_}")
+    rep.floor("R-02.7", n_read, 120)
     rep.meta["explanation"] = (
         "Sibling cross-check: for each of ~70 record classes, the helper codecs, 9 SVCB parameter classes and 11 EDNS option classes the writer and the reader are abstractly interpreted into "
         "layout token sequences (struct formats expanded, length fields linked to the data they count, loops/optional tails/helper codecs recognised) and compared. Exact-consumption and dispatch "
@@ -319,6 +339,10 @@ def run(model, rep, tier):
 
 
 WITNESSES = [
+    {"id": "c02-ecs-scope-read-and-dropped", "rule": "R-02.7", "file": "dns/edns.py", "expect": "fires",
+     "old": "        return cls(addr, src, scope)", "new": "        return cls(addr, src)"},
+    {"id": "c02-bitmap-writer-strips-zero-octets", "rule": "R-02.1", "file": "dns/rdtypes/util.py", "expect": "fires",
+     "old": "        for window, bitmap in self.windows:\n            file.write(struct.pack(\"!BB\", window, len(bitmap)))", "new": "        for window, bitmap in self.windows:\n            bitmap = bitmap.rstrip(b\"\\x00\")\n            file.write(struct.pack(\"!BB\", window, len(bitmap)))"},
     {"id": "c02-generic-fallback-cached-for-all-classes", "rule": "R-02.3", "file": "dns/rdata.py", "expect": "fires",
      "old": "        cls = GenericRdata\n        _rdata_classes[(rdclass, rdtype)] = cls", "new": "        cls = GenericRdata\n        _rdata_classes[(dns.rdataclass.ANY, rdtype)] = cls"},
     {"id": "c02-ecs-srclen-zero-defaulted", "rule": "R-02.6", "file": "dns/edns.py", "expect": "fires",
